@@ -272,6 +272,29 @@ def check_decoder(res, ctx, rng, name):
                               f'{[hex(w) for w in other]}) and emits a {x} record naming thread 6 ({first}): thread 6\'s call '
                               f'renders {t5}, a clean pair renders {text0!r}', dict(case, other=other, naming=x))
                 return
+        # (3d) another call of the same thread whose window OVERLAPS this one without nesting (opened before it and closed
+        # inside it, or opened inside it and closed after it): windows are paired by code, not by nesting
+        crossing = 'BSC_getpid' if name != 'BSC_getpid' else 'BSC_getppid'
+        cw = [rng.getrandbits(64) for _ in range(4)]
+        for shape in ('closes inside', 'opens inside'):
+            if shape == 'closes inside':
+                seq_x = [H.A(crossing, H.START, cw), H.A(name, H.START, start), H.A(crossing, H.END, (0, 5, 0, 0))] + nested6 + \
+                    [H.A(name, H.END, end)]
+            else:
+                seq_x = [H.A(name, H.START, start)] + nested6 + [H.A(crossing, H.START, cw), H.A(name, H.END, end),
+                                                                  H.A(crossing, H.END, (0, 5, 0, 0))]
+            try:
+                parser = ev.new_parser()
+                t6 = [str(t) for t in (parser.feed(e) for e in H.materialize(H.on_thread(6, seq_x)))
+                      if t is not None and t.ktraces[0].eventid == ev.eid(name)]
+            except Exception as x_:
+                res.violation(f'c09-raises-{core.exc_name(x_)}', f'{name}: {x_!r} with a {crossing} window that {shape} it', case)
+                return
+            res.count('crossing_window_variants')
+            if t6 != [text0]:
+                res.violation('c09-words-of-another-event', f'{name}: a {crossing} window of the same thread {shape} its window '
+                              f'(overlapping, not nested): the call renders {t6}, a clean pair renders {text0!r}', case)
+                return
         # (4) quoted parameters come from the lookups, never from words
         for k, tok in enumerate(tokens0):
             if tok.startswith('"') and tok.endswith('"') and tok != '""':
